@@ -460,24 +460,34 @@ class NetworkService(ModelElement):
         link between them
         """
         assert(isinstance(ns, NetworkService))
-        # see if they peer
-        sp = self.topo.graph_model.get_nodes_on_shortest_path(node_a=self.node_id, node_z=ns.node_id,
-                                                              rel=ABCPropertyGraph.REL_CONNECTS)
-        # peering services are connected as service - port - link - port - service; any other path
-        # (e.g. through interfaces of a node both services connect to) is not a peering
-        if len(sp) != 5:
+        gm = self.topo.graph_model
+        service_port = str(InterfaceType.ServicePort)
+        # the peerings are found from this service's own service ports: such a port, its link, and at the
+        # other end of that link a service port owned by ns (no path search: the services may also be
+        # connected in other ways, e.g. one to a node port of the other)
+        mine, theirs = set(), set()
+        for cp in gm.get_all_ns_or_link_connection_points(link_id=self.node_id):
+            _, cp_props = gm.get_node_properties(node_id=cp)
+            if cp_props.get(ABCPropertyGraph.PROP_TYPE, None) != service_port:
+                continue
+            for peer in gm.find_peer_connection_points(node_id=cp) or []:
+                _, peer_props = gm.get_node_properties(node_id=peer)
+                if peer_props.get(ABCPropertyGraph.PROP_TYPE, None) != service_port:
+                    continue
+                _, owner = gm.get_parent(node_id=peer, rel=ABCPropertyGraph.REL_CONNECTS,
+                                         parent=ABCPropertyGraph.CLASS_NetworkService)
+                if owner == ns.node_id:
+                    mine.add(cp)
+                    theirs.add(peer)
+        if len(mine) == 0:
             raise TopologyException(f"Network services {self.name} and {ns.name} do not peer!")
-        # both ends of a peering link are service ports; a node port connected to the other service is not a peering
-        for cp in (sp[1], sp[-2]):
-            _, cp_props = self.topo.graph_model.get_node_properties(node_id=cp)
-            if cp_props.get(ABCPropertyGraph.PROP_TYPE, None) != str(InterfaceType.ServicePort):
-                raise TopologyException(f"Network services {self.name} and {ns.name} do not peer!")
-        # remove ConnectionPoints and link between them
-        self.topo.graph_model.remove_cp_and_links(node_id=sp[1])
-        ns.topo.graph_model.remove_cp_and_links(node_id=sp[-2])
+        # remove every peering between the two services: both ConnectionPoints and the link between them
+        for cp in mine.union(theirs):
+            if gm.node_exists(node_id=cp, label=ABCPropertyGraph.CLASS_ConnectionPoint):
+                gm.remove_cp_and_links(node_id=cp)
         # update interface lists
-        self._interfaces = list(filter((lambda x: x.node_id != sp[1]), self._interfaces))
-        ns._interfaces = list(filter((lambda x: x.node_id != sp[-2]), ns._interfaces))
+        self._interfaces = list(filter((lambda x: x.node_id not in mine), self._interfaces))
+        ns._interfaces = list(filter((lambda x: x.node_id not in theirs), ns._interfaces))
 
     def copy_to_peer_labels(self) -> None:
         """
